@@ -34,7 +34,7 @@ ASSUMPTIONS = [
     "eigh / ndtri / MultivariateNormalTriL are trusted primitives",
 ]
 WORKERS = 16
-TIMEOUT = {"quick": 900, "thorough": 3600}
+TIMEOUT = {"quick": 1500, "thorough": 10800}
 
 
 # ---------------------------------------------------------------- MVN degenerate
